@@ -62,6 +62,22 @@ def f32ToF64 (b : Nat) : Nat :=
       sign * 2 ^ 63 + e64 * 2 ^ 52 + (m - 2 ^ k) * 2 ^ (52 - k)
   else sign * 2 ^ 63 + (e + 896) * 2 ^ 52 + m * 2 ^ 29
 
+/-- IEEE 754 binary16 → binary64 bit pattern (exact widening; RFC 8949 Appendix D). NaN payloads are moved to the top of the fraction. -/
+def f16ToF64 (b : Nat) : Nat :=
+  let sign := b / 32768
+  let e := b / 1024 % 32
+  let m := b % 1024
+  if e = 31 then sign * 2 ^ 63 + 2047 * 2 ^ 52 + m * 2 ^ 42
+  else if e = 0 then
+    if m = 0 then sign * 2 ^ 63
+    else
+      -- subnormal: value = m * 2^-24; normalise
+      let k := Nat.log2 m                      -- position of the leading one (0..9)
+      sign * 2 ^ 63 + (k + 999) * 2 ^ 52 + (m - 2 ^ k) * 2 ^ (52 - k)
+  else sign * 2 ^ 63 + (e + 1008) * 2 ^ 52 + m * 2 ^ 42
+
+def f16IsNaN (b : Nat) : Bool := b / 1024 % 32 = 31 ∧ b % 1024 ≠ 0
+
 def natToDec (n : Nat) : Bytes := (toString n).toUTF8.toList.map (·.toNat)
 
 /-- definite-length chunks of major type `major` up to the break -/
